@@ -3,7 +3,8 @@ Boolean decisions a provider takes on ONE key of a stage input map (`input["enab
 
 The stage input is a `map[string]any`; the providers compare the raw value with `nil`, `true` and `false` using Go's `==`
 on interface values: `x == true` holds iff the dynamic type of `x` is `bool` and its value is `true` — a string "true", an
-int 1, ... are NOT equal to `true`.  `FieldCond` is the shape of such a decision as the fact extractor reads it from the
+int 1, ... are NOT equal to `true` — or read it through the bool schema (`schema.NewBoolSchema().Unserialize(x)`,
+`boolRead` below: the pluginsdk table of accepted spellings; `arcadrv gate` compares it with the real schema on every run).  `FieldCond` is the shape of such a decision as the fact extractor reads it from the
 source (`Arca.Gen.Decisions`, regenerated on every run); `FieldCond.eval` is its meaning over `Option Val`
 (`none` = key absent, `some .null` = nil interface value).
 
@@ -12,6 +13,21 @@ Core Lean only (linked into `arcadrv`).
 import Arca.Model.Val
 
 namespace Arca.Model
+
+/-! ## The bool schema's reading of a serialized value (pluginsdk `BoolSchema.Unserialize`; ASCII case folding) -/
+
+def boolStrings : List (String × Bool) :=
+  [("1", true), ("yes", true), ("y", true), ("on", true), ("true", true), ("enable", true), ("enabled", true),
+   ("0", false), ("no", false), ("n", false), ("off", false), ("false", false), ("disable", false), ("disabled", false)]
+
+def lowerAscii (s : String) : String := String.ofList (s.toList.map Char.toLower)
+
+/-- `some b`: the schema reads the value as `b`; `none`: the schema rejects it (`Unserialize` returns an error) -/
+def boolRead : Val → Option Bool
+  | .bool b => some b
+  | .int i => if i = 1 then some true else if i = 0 then some false else none
+  | .str s => lookup (lowerAscii s) boolStrings
+  | _ => none
 
 inductive FieldCond where
   /-- `input[k] == nil` -/
@@ -22,6 +38,12 @@ inductive FieldCond where
   | eqBool (b : Bool)
   /-- `input[k] != true` / `!= false` -/
   | neBool (b : Bool)
+  /-- `schema.NewBoolSchema().Unserialize(input[k])` succeeds and yields `b` -/
+  | boolReads (b : Bool)
+  /-- `schema.NewBoolSchema().Unserialize(input[k])` returns an error -/
+  | boolRejects
+  /-- a constant -/
+  | const (b : Bool)
   | and (a b : FieldCond)
   | or (a b : FieldCond)
   | not (a : FieldCond)
@@ -42,12 +64,20 @@ def rawEqBool (b : Bool) : Option Val → Bool
   | some (.bool c) => c == b
   | _ => false
 
+/-- the bool schema's reading of the raw value (`none`: absent / nil / rejected) -/
+def rawRead : Option Val → Option Bool
+  | some v => boolRead v
+  | none => none
+
 /-- meaning of a decision; an unknown shape is never satisfied (and `known` is an obligation of its own) -/
 def eval : FieldCond → Option Val → Bool
   | .isNil, i => rawNil i
   | .notNil, i => !rawNil i
   | .eqBool b, i => rawEqBool b i
   | .neBool b, i => !rawEqBool b i
+  | .boolReads b, i => rawRead i == some b
+  | .boolRejects, i => (rawRead i).isNone
+  | .const b, _ => b
   | .and a b, i => a.eval i && b.eval i
   | .or a b, i => a.eval i || b.eval i
   | .not a, i => !a.eval i
